@@ -26,7 +26,7 @@ func init() {
 			"(baseline, systematic single-preemption sweep over (tasks completed first, preempted task, point), PCT d<=3, random, biased); " +
 			"non-trivial = at least one preemption of a task that was still runnable (a context switch inside an operation sequence); " +
 			"distinct = distinct (program hash, schedule hash)",
-		Quick: 24 * c03Group, Thorough: 1500 * c03Group,
+		Quick: 48 * c03Group, Thorough: 1500 * c03Group,
 		Race: true, RaceQuick: 2 * c03Group, RaceThorough: 100 * c03Group,
 	})
 }
@@ -65,12 +65,31 @@ func genC03Program(t *simrt.Tape) *c03Program {
 	}
 	// session 0: login || events
 	s0 := w.Sessions[0]
-	p.Prog = append(p.Prog, []L1Op{{Kind: "login", S: 0}})
+	variant := t.Choose(6, "variant")
+	t0 := []L1Op{{Kind: "login", S: 0}}
+	switch variant {
+	case 4:
+		// an invalid login is rejected before the valid one of the same task
+		t0 = []L1Op{{Kind: "badlogin", S: 0}, {Kind: "login", S: 0}}
+	case 5:
+		// cleanup follows the login in program order
+		t0 = []L1Op{{Kind: "login", S: 0}, {Kind: "cleanup", Cut: []int{3600, -3600}[t.Choose(2, "cut")]}}
+	}
+	p.Prog = append(p.Prog, t0)
 	var evs []L1Op
 	for i := 0; i < len(s0.Events)-1; i++ {
 		evs = append(evs, L1Op{Kind: "event", S: 0, E: i})
 	}
-	if len(evs) >= 2 && t.Choose(3, "split.s0") == 0 {
+	if variant == 5 && nSess > 1 {
+		// the session's records all arrive after the concurrent phase (as probes)
+		for _, e := range evs {
+			p.Probes = append(p.Probes, e)
+		}
+		evs = nil
+	}
+	if len(evs) == 0 {
+		// nothing concurrent from session 0's records
+	} else if len(evs) >= 2 && t.Choose(3, "split.s0") == 0 {
 		// the reassembler hands events to the correlator from two goroutines (record push
 		// and time-out maintenance): events of one session delivered by two tasks
 		k := 1 + t.Choose(len(evs)-1, "split.at")
@@ -172,10 +191,9 @@ func scnC03L1(rc *RunCtx) {
 	// probes, sequentially, by the scheduler goroutine (inline)
 	rec.NoPoint = true
 	errs := pr.errs
-	for _, op := range p.Probes {
-		if err := p.World.Exec(tr, op); err != nil {
-			errs = append(errs, op.String()+":"+errClass(err))
-		}
+	if stuck := p.World.execAllInline(tr, p.Probes, &errs); stuck != "" {
+		rc.Fail("C03", "stuck", "after all concurrent deliveries returned a further delivery blocks forever: a lock is still held (%s)", stuck)
+		return
 	}
 	obs := p.World.Observable(rec.Events, errs)
 
